@@ -768,6 +768,106 @@ def generate(repo):
     g.item('xy_j_to_mn', 'prysm/polynomials/xy.py:xy_j_to_mn', lambda: get_def(xy, 'xy_j_to_mn'),
            whole(xy, 'xy_j_to_mn', 'xyJToMn', fuel='j_.toNat'),
            f'def xyJToMn (j_ : Int) : Option (Int × Int) := if j_ < 1 then none else some ({M}.xyJToMn j_)')
+    # ---------------------------------------------------------------- session 3: names and pairing of the +-m terms
+    g.item('name_accessor', 'prysm/polynomials/zernike.py:_name_accessor', lambda: get_def(zk, '_name_accessor'),
+           whole(zk, '_name_accessor', 'nameAccessor'),
+           f'def nameAccessor (n_ m_ : Int) : Option Int := some ({M}.nameAccessor n_ m_)')
+
+    def find_sph():
+        fn = get_def(zk, 'nm_to_name')
+        hits = [st for st in ast.walk(fn) if isinstance(st, ast.Assign) and len(st.targets) == 1
+                and isinstance(st.targets[0], ast.Name) and st.targets[0].id == 'accessor']
+        if len(hits) != 1:
+            raise Untranslatable('nm_to_name: the assignment of the spherical ordinal `accessor = …` was not found (once)')
+        return hits[0]
+
+    def build_sph():
+        fn = get_def(zk, 'nm_to_name')
+        bad = purity_problems(fn)
+        bad = [b for b in bad if '_names' not in b and '_name_helper' not in b]      # the two tables are items of their own
+        if bad:
+            raise Untranslatable('nm_to_name: ' + '; '.join(bad[:3]))
+        params = [a.arg for a in fn.args.args]
+        te = TE({q: (f'{q}_', 'int') for q in params}, funcs)
+        term, ty = te.expr(find_sph().value)
+        if ty != 'int' or te.binds:
+            raise Untranslatable('spherical ordinal is not an integer expression')
+        return f'def sphericalAccessor {" ".join(f"({q}_ : Int)" for q in params)} : Int :=\n  {term}\n'
+    g.item('spherical_accessor', 'prysm/polynomials/zernike.py:nm_to_name', find_sph, build_sph,
+           f'def sphericalAccessor (n_ m_ : Int) : Int := {M}.sphericalAccessor n_')
+
+    def find_loop():
+        fn = get_def(zk, 'zernikes_to_magnitude_angle_nmkey')
+        loops = [st for st in fn.body if isinstance(st, ast.For) and isinstance(st.target, ast.Tuple) and len(st.target.elts) == 3]
+        if len(loops) != 1:
+            raise Untranslatable('zernikes_to_magnitude_angle_nmkey: the loop `for n, m, coef in coefs` was not found')
+        return loops[0]
+
+    def build_key():
+        lp = find_loop()
+        if not all(isinstance(x, ast.Name) for x in lp.target.elts):
+            raise Untranslatable('loop target')
+        nn, mm, cc = [x.id for x in lp.target.elts]
+        te = TE({nn: ('n_', 'int'), mm: ('m_', 'int')}, funcs)
+        tuples = {}
+        key = None
+        for st in lp.body:
+            if isinstance(st, ast.Assign) and len(st.targets) == 1 and isinstance(st.targets[0], ast.Name):
+                if isinstance(st.value, ast.Tuple):
+                    tuples[st.targets[0].id] = [te.as_int(x) for x in st.value.elts]
+                else:
+                    term, ty = te.expr(st.value)
+                    te.env = {**te.env, st.targets[0].id: (f'({term})', ty)}
+                continue
+            if isinstance(st, ast.Expr) and isinstance(st.value, ast.Call) and isinstance(st.value.func, ast.Attribute) \
+                    and st.value.func.attr == 'append' and isinstance(st.value.func.value, ast.Subscript) \
+                    and len(st.value.args) == 1 and isinstance(st.value.args[0], ast.Name) and st.value.args[0].id == cc \
+                    and key is None:
+                k = st.value.func.value.slice
+                if isinstance(k, ast.Name) and k.id in tuples:
+                    key = tuples[k.id]
+                elif isinstance(k, ast.Tuple):
+                    key = [te.as_int(x) for x in k.elts]
+                else:
+                    raise Untranslatable('key of the grouping dict')
+                continue
+            raise Untranslatable(f'statement in the grouping loop: {ast.unparse(st)[:60]}')
+        if key is None or len(key) != 2 or te.binds:
+            raise Untranslatable('the grouping key is not a pair of integers')
+        return f'def magangKey (n_ m_ : Int) : Int × Int :=\n  ({key[0]}, {key[1]})\n'
+    g.item('magang_key', 'prysm/polynomials/zernike.py:zernikes_to_magnitude_angle_nmkey', find_loop, build_key,
+           f'def magangKey (n_ m_ : Int) : Int × Int := {M}.magangKey n_ m_')
+
+    def table(pyname, lean):
+        def find():
+            hits = [st for st in zk.body if isinstance(st, ast.Assign) and len(st.targets) == 1
+                    and isinstance(st.targets[0], ast.Name) and st.targets[0].id == pyname]
+            if len(hits) != 1 or not isinstance(hits[0].value, ast.Dict):
+                raise Untranslatable(f'{pyname} is not one module-level dict literal')
+            for x in ast.walk(zk):
+                if x is not hits[0] and isinstance(x, (ast.Subscript, ast.Attribute, ast.Name)) and isinstance(x.ctx, (ast.Store, ast.Del)):
+                    r = x
+                    while isinstance(r, (ast.Subscript, ast.Attribute)):
+                        r = r.value
+                    if isinstance(r, ast.Name) and r.id == pyname and not (x is hits[0].targets[0]):
+                        raise Untranslatable(f'{pyname} is modified after its definition')
+            return hits[0]
+
+        def build():
+            d = find().value
+            rows = []
+            for k, v in zip(d.keys, d.values):
+                if not (isinstance(k, ast.Constant) and type(k.value) is int and isinstance(v, ast.Constant) and isinstance(v.value, str)):
+                    raise Untranslatable(f'{pyname}: entry {ast.unparse(k) if k else "**"}')
+                if any(ord(c) < 32 or c in '"\\' for c in v.value):
+                    raise Untranslatable(f'{pyname}: string needs escaping')
+                rows.append(f'({_ilit(k.value)}, "{v.value}")')
+            return f'def {lean} : List (Int × String) :=\n  [' + ', '.join(rows) + ']\n'
+        return find, build
+    f1, b1 = table('_names', 'namesTable')
+    g.item('names_table', 'prysm/polynomials/zernike.py:_names', f1, b1, 'def namesTable : List (Int × String) := []')
+    f2, b2 = table('_names_m', 'namesMTable')
+    g.item('names_m_table', 'prysm/polynomials/zernike.py:_names_m', f2, b2, 'def namesMTable : List (Int × String) := []')
     # structural fact (evidence; not a theorem: correct memoisation would make it false without breaking the property —
     # when it is false the items above are `untranslatable` and the harness widens its order-independence probing)
     def stateless():
